@@ -11,6 +11,7 @@ structure S where
   sinks : List String := []            -- module accounts and the protocol revenue address
   model : List (String × St) := []     -- per reward denom
   started : Bool := false
+  prevBank : FMap (String × String) := []   -- bank balances after the previous block (a denom first tracked now starts from what the module already held)
   deriving Inhabited
 
 def shareDenom (p : Nat) : String := if p == 32767 then "stablestake/share" else "amm/pool/" ++ toString p
@@ -29,25 +30,30 @@ def owedOf (o : Snapshot) (d : String) : Int :=
 
 def denoms (o : Snapshot) : List String := ((o.rewardPools.map (·.denom)).eraseDups).filter (fun d => d != "ueden" && d != "uedenb")
 
+/-- every denom that is a reward denom of some pool now, or was tracked before (an incentive is funded before its denom is listed) -/
 def project (mc : String) (o : Snapshot) (prev : List (String × St)) : List (String × St) :=
-  (denoms o).map fun d => (d, { bal := o.bank.get (mc, d), owed := owedOf o d,
-                                reserved := ((prev.find? (fun e => e.1 == d)).map (·.2.reserved)).getD 0 })
+  let ds := (denoms o ++ prev.map (fun e => e.1)).eraseDups
+  ds.map fun d => (d, { bal := o.bank.get (mc, d), owed := owedOf o d,
+                        reserved := ((prev.find? (fun e => e.1 == d)).map (·.2.reserved)).getD 0 })
 
 def handle (s : S) (i : Nat) (j : Json) : S × List Json :=
   match fStr? j "t" with
   | some "hist.begin" =>
     let names := parseNames j
     let mc := addrOf names "mod:masterchef"
-    ({ mc := mc, sinks := (names.filter (fun p => p.2.startsWith "mod:" || p.2 == "protocolRevenue")).map (·.1), model := project mc (Snapshot.parse (fld j "obs")) [], started := true }, [verdictOk i])
+    let o0 := Snapshot.parse (fld j "obs")
+    ({ mc := mc, sinks := (names.filter (fun p => p.2.startsWith "mod:" || p.2 == "protocolRevenue")).map (·.1), model := project mc o0 [], started := true, prevBank := o0.bank }, [verdictOk i])
   | some "hist.step" =>
     if !s.started then (s, [verdictBad i "hist.step before hist.begin"]) else
     let st := parseStep j
-    if st.failed then (s, [verdictOk i]) else
-    let ds := (denoms st.obs ++ s.model.map (·.1)).eraseDups
+    if st.failed then ({ s with prevBank := st.obs.bank }, [verdictOk i]) else
+    let funded := (st.txs.filter (fun t => t.kind == "mc.externalIncentive" && t.code == 0)).flatMap
+      (fun t => (t.moves.filter (fun m => m.kind == "send" && m.dst == s.mc)).map (·.denom))
+    let ds := (denoms st.obs ++ s.model.map (·.1) ++ funded).eraseDups
     let sumMoves (ms : List Move) (d : String) (toMc : Bool) : Int :=
       (ms.filter (fun m => m.kind == "send" && m.denom == d && (if toMc then m.dst == s.mc else m.src == s.mc))).foldl (fun a m => a + m.amt) 0
     let res := ds.map fun d =>
-      let m0 : St := ((s.model.find? (fun e => e.1 == d)).map (·.2)).getD {}
+      let m0 : St := ((s.model.find? (fun e => e.1 == d)).map (·.2)).getD { bal := s.prevBank.get (s.mc, d) }
       let fund := (st.txs.filter (fun t => t.kind == "mc.externalIncentive" && t.code == 0)).foldl (fun a t => a + sumMoves t.moves d true) 0
       let txIn := st.txs.foldl (fun a t => a + sumMoves t.moves d true) 0
       let rev := txIn - fund + sumMoves st.beginMoves d true + sumMoves st.endMoves d true
@@ -83,7 +89,7 @@ def handle (s : S) (i : Nat) (j : Json) : S × List Json :=
                      ("shortfallTokens", mkInt ((e.2.owed - e.2.bal * P + P - 1) / P))])]
       | none => [])
     let vs := diffs ++ viols
-    ({ s with model := o }, if vs.isEmpty then [verdictOk i] else vs)
+    ({ s with model := o, prevBank := st.obs.bank }, if vs.isEmpty then [verdictOk i] else vs)
   | some "stats" => (s, [])
   | _ => (s, [verdictBad i "unknown t"])
 
